@@ -249,16 +249,20 @@ def program_correspondence(run, n_good, n_bad, extra=()):
     """Generated programs -> text -> real importer -> tree ; compared exactly with vm_compute (denote_v fx_now ast).
     extra: (case, text) pairs imported as they are (stored inputs of repaired findings = regression cases)."""
     cases, terms = [], []
-    for i in range(n_good + n_bad + len(extra)):
+    probes = [{k: c[k] for k in ("flavour", "root", "prog")} for fl in ("elegant", "bmad") for c in lg.gen_zero_probes(run.rng, fl)]
+    for i in range(n_good + n_bad + len(extra) + len(probes)):
         flavour = "elegant" if i % 2 == 0 else "bmad"
         if i < n_good:
             case = lg.gen_program(run.rng, flavour, size=run.rng.choice([3, 6, 10]), depth=run.rng.choice([1, 2, 3]), nest=5)
             kind = "wellformed"
         elif i < n_good + n_bad:
             case, kind = lg.gen_malformed(run.rng, flavour)
-        else:
+        elif i < n_good + n_bad + len(extra):
             case, text = extra[i - n_good - n_bad]
             flavour, kind = case["flavour"], "regression_input"
+        else:
+            case = probes[i - n_good - n_bad - len(extra)]          # one optional property given as an exact zero
+            flavour, kind = case["flavour"], "zero_given"
         if kind != "regression_input":
             style = run.rng.choice(STYLES)
             text = lg.render_program(case["prog"], run.rng, style)
